@@ -1,13 +1,14 @@
-import AmcVerif.Props.C04f
+import AmcVerif.Lemmas.MergeContract
 import AmcVerif.Bridge.FlatSetBridge
+import AmcVerif.Props.C12
 /-! C03 (merge contract) — what the generated `FlatSet::merge` (both overloads: the source a FlatSet of the same type, with the
 two-pointer arm for a stateless comparator type and the insertion arm otherwise, and the source a set with ANOTHER comparator)
-does to the elements, as the contract `std::set::merge` satisfies (`C04.MergeSpec`): the target stays strictly increasing, keeps its
+does to the elements, as the contract `std::set::merge` satisfies (`Sets.MergeSpec`, `Lemmas/MergeContract.lean`): the target stays strictly increasing, keeps its
 elements and receives `moved`; the source keeps `kept`; `moved ++ kept` is a permutation of the source; no moved element had an
 equivalent in the target; every kept element has one afterwards.  Until the fourth session the merge theorems said "equals
 `mergeFrom`" — the specification function itself had no statement of what it means. -/
 namespace AmcVerif.Props.C03
-open AmcVerif AmcVerif.FS AmcVerif.Sets AmcVerif.Bridge.FlatSet AmcVerif.Props.C04
+open AmcVerif AmcVerif.FS AmcVerif.Sets AmcVerif.Bridge.FlatSet
 variable {α : Type} {lt : α → α → Bool}
 
 theorem C03_gen_merge_contract (hswo : SWO lt) (l : List α) (hs : Sorted lt l) (lt_o : α → α → Bool) (o : List α)
@@ -32,7 +33,8 @@ theorem C03_merge_sizes {tgt src tgt' src' : List α} (h : MergeSpec lt tgt src 
   simp only [List.length_append] at a b
   omega
 
-example : ∃ r, Gen.FlatSet.merge exLt [1, 5] exLt [2, 5, 9] true = some r ∧ Sorted exLt r.1 ∧ MergeSpec exLt [1, 5] [2, 5, 9] r.1 r.2.1 :=
-  C03_gen_merge_contract exLt_swo [1, 5] (by simp [Sorted, exLt]) exLt [2, 5, 9] true (fun _ => by simp [Sorted, exLt])
+example : ∃ r, Gen.FlatSet.merge (fun a b : Nat => decide (a < b)) [1, 5] (fun a b : Nat => decide (a < b)) [2, 5, 9] true = some r
+    ∧ Sorted (fun a b : Nat => decide (a < b)) r.1 ∧ MergeSpec (fun a b : Nat => decide (a < b)) [1, 5] [2, 5, 9] r.1 r.2.1 :=
+  C03_gen_merge_contract C12.natLt_swo [1, 5] (by simp [Sorted]) _ [2, 5, 9] true (fun _ => by simp [Sorted])
 
 end AmcVerif.Props.C03
